@@ -8,6 +8,20 @@ func init() {
 		pUnlockFirst: 80, pCancel: 80, pPriority: 60, pWaitUnl: 30, pMs: 60, pMinute: 10, pUnlim: 40, pData: 120, pAck: 0, pAofFlags: 150,
 		timeouts: []uint16{0, 0, 1, 2, 3, 5}, expireds: []uint16{0, 1, 2, 3, 5, 5, 8}, rcounts: []uint8{0, 0, 1, 2, 3, 254, 255}, maxDelayMs: 900, twoDbs: true}
 	kinds["core"] = &kindFn{gen: func(prop string, seed uint64, tier string) *Scenario { return genCore(prop, seed, tier, base) }, run: runCore}
+	// keyrace: keys that share one hash slot, exclusive (Count 0) short holds taken and released by
+	// many clients at once, so that key managers are created, recycled and looked up concurrently
+	race := genCfg{profile: "keyrace", nClients: [2]int{3, 6}, nOps: [2]int{10, 40}, nKeys: [2]int{2, 3}, nLids: [2]int{3, 6},
+		counts: []uint16{0}, uniformCount: true, pUnlock: 480, pWait: 300, timeouts: []uint16{0, 0, 0, 1}, expireds: []uint16{1, 1, 2},
+		rcounts: []uint8{0}, maxDelayMs: 3, memOnly: true, forceFastKeys: 1}
+	kinds["keyrace"] = &kindFn{gen: func(prop string, seed uint64, tier string) *Scenario { return genCore(prop, seed, tier, race) }, run: runCore}
+	propKinds["C01"] = append(propKinds["C01"], struct {
+		Kind   string
+		Weight int
+	}{"keyrace", 6})
+	propKinds["C17"] = append(propKinds["C17"], struct {
+		Kind   string
+		Weight int
+	}{"keyrace", 3})
 	for _, p := range []string{"C01", "C02", "C03", "C04", "C05", "C06", "C15", "C17"} {
 		propKinds[p] = append(propKinds[p], struct {
 			Kind   string
